@@ -9,12 +9,12 @@ from props import judges
 from props.common import TRUSTED_BASE, ASSUMPTIONS
 
 ID = "C14"
-LEAN_MODULES = ["LexVerif.Props.C14", "LexVerif.Props.C14Pow2", "LexVerif.Props.Literals.WriteFloatOptions", "LexVerif.Props.Literals.WriteFloatShared", "LexVerif.Props.Literals.WriteFloatAlgorithm", "LexVerif.Props.Literals.WriteFloatCompact", "LexVerif.Props.Literals.WriteFloatBinary", "LexVerif.Props.Literals.WriteFloatHex", "LexVerif.Props.Literals.WriteFloatRadix", "LexVerif.Props.Literals.WriteFloatWrite"]
+LEAN_MODULES = ["LexVerif.Props.C14", "LexVerif.Props.C14Pow2", "LexVerif.Props.C14Radix", "LexVerif.Props.Literals.WriteFloatOptions", "LexVerif.Props.Literals.WriteFloatShared", "LexVerif.Props.Literals.WriteFloatAlgorithm", "LexVerif.Props.Literals.WriteFloatCompact", "LexVerif.Props.Literals.WriteFloatBinary", "LexVerif.Props.Literals.WriteFloatHex", "LexVerif.Props.Literals.WriteFloatRadix", "LexVerif.Props.Literals.WriteFloatWrite"]
 GEN = ["write_tables", "literals"]
 TRUSTED = TRUSTED_BASE + [
     "the digit generators (Dragonbox / Grisu) are not part of C14: theorems quantify over every digit list; the correspondence "
     "feeds the implementation's own default-option digits to the formatting model (judge op jfmt), so it also covers compact builds",
-    "binary.rs / hex.rs / radix.rs writers under options are NOT modelled: relational laws on their outputs only (exact rationals in Python)",
+    "binary.rs / hex.rs writers under options are NOT modelled: relational laws on their outputs only (exact rationals in Python); radix.rs IS modelled byte-exactly (Model/WriteRadix.lean, C07) — Props/C14Radix.lean: decided root causes of its open option findings, literal / digit-count / notation laws of the repaired model (switches default to the current code); its value law is judged on the outputs",
 ]
 RULE = ("G-bits sample + curated rounding-sensitive values (ties, all-nines carries, carries across an exponent break, values whose "
         "truncation ends in 0) x G-opt (max/min significant digits 1..64 and 100..500, exponent breaks over the whole range, Round/Truncate, "
